@@ -49,6 +49,8 @@ type Sched struct {
 	Threads map[string]*Thr
 	ParkOn  func(label string) bool
 	ParkOnT func(thread, label string) bool // optional per-thread filter (overrides ParkOn when set)
+	// Observe, when set, sees every hook of every goroutine (registered or not) before any parking; it must not block.
+	Observe func(label, arg string)
 	Adopt   map[string]string // label -> thread name to adopt an unregistered goroutine reaching it (e.g. loop.start)
 	Timeout time.Duration
 	free    bool // hooks pass through (teardown)
@@ -81,7 +83,7 @@ func hook(label, arg string) {
 
 func NewSched(parkOn func(string) bool) *Sched {
 	installHooks()
-	s := &Sched{byGid: map[int64]*Thr{}, Threads: map[string]*Thr{}, ParkOn: parkOn, Adopt: map[string]string{}, Timeout: 2 * time.Second}
+	s := &Sched{byGid: map[int64]*Thr{}, Threads: map[string]*Thr{}, ParkOn: parkOn, Adopt: map[string]string{}, Timeout: 20 * time.Second}
 	schedMu.Lock()
 	activeSched = s
 	schedMu.Unlock()
@@ -89,6 +91,9 @@ func NewSched(parkOn func(string) bool) *Sched {
 }
 
 func (s *Sched) yield(label, arg string) {
+	if s.Observe != nil {
+		s.Observe(label, arg)
+	}
 	gid := curGid()
 	s.mu.Lock()
 	if s.free {
